@@ -623,9 +623,35 @@ func faultUnit(si int) harness.Unit {
 				}
 			}
 		}
+		ders := [][]byte{der}
+		if c.Thorough() {
+			// thorough: the byte sweep also over every 4th template variation
+			for i, tc := range templateCases() {
+				if i%4 != 1 {
+					continue
+				}
+				t2 := baseTemplate()
+				if s.family == "sm2" {
+					t2.SignatureAlgorithm = gx509.SM2WithSM3
+				}
+				tc.mod(t2)
+				if d2, err := gx509.CreateCertificate(t2, s.ca, subj, s.key); err == nil {
+					ders = append(ders, d2)
+				}
+			}
+		}
+		for _, der := range ders {
+			certByteFaults(c, s, der)
+		}
+		c09objects(c, s)
+	}}
+}
+
+func certByteFaults(c *harness.Ctx, s *signer, der []byte) {
+	{
 		p, err := gx509.ParseCertificate(der)
 		if err != nil || p.CheckSignatureFrom(s.ca) != nil {
-			c.Note("base certificate does not verify for %s; byte faults skipped (reported by the certificate unit)", s.name)
+			c.Note("certificate does not verify for %s; byte faults skipped (reported by the certificate unit)", s.name)
 			return
 		}
 		tbsOff := bytes.Index(der, p.RawTBSCertificate)
@@ -663,7 +689,11 @@ func faultUnit(si int) harness.Unit {
 			try("signature", i)
 		}
 		c.Sample(fmt.Sprintf("every byte of TBS (%d) and signature value (%d) of a certificate signed by %s x {b^1,b^0x80,00,ff}", len(p.RawTBSCertificate), len(p.Signature), s.name))
+	}
+}
 
+func c09objects(c *harness.Ctx, s *signer) {
+	{
 		// the same for a certificate request and a revocation list
 		type obj struct {
 			kind   string
@@ -767,7 +797,7 @@ func faultUnit(si int) harness.Unit {
 			}
 			c.Sample(fmt.Sprintf("every byte of the signed part (%d) and signature value (%d) of a %s signed by %s x {b^1,b^0x80,00,ff}", len(signed), len(sig), o.kind, s.name))
 		}
-	}}
+	}
 }
 
 // Prop registers C09.
@@ -776,7 +806,12 @@ var Prop = &harness.Prop{
 	Level:       "exploration",
 	Rule:        "one-at-a-time product: 58 template variations (serials incl. negative/20-byte, names, validity boundaries, every KeyUsage bit, every ExtKeyUsage, basic constraints/path lengths, SAN kinds, name constraints, policies, CRL DP/AIA, extra extension, key ids) x signer {SM2, RSA-2048, P-256, P-384} x signature algorithm {unset + the signer's family; all 9 incl. mismatching ones on the base template}; CSRs (5 templates) and CRLs (CreateCRL, CreateRevocationList x 9 algorithms x 3 revoked sets) likewise. For every object inside the premise: creation, parse-back field by field, verification under the issuer, failure under other keys. Fault enumeration: every byte of the signed part and of the signatureValue BIT STRING (tag, length, unused-bits octet, contents) of one certificate, one certificate request and one revocation list per signer x {b^1,b^0x80,00,ff} must fail to parse or verify; the unused-bits octet set to 1..7 on 10 objects of each kind. Distinct/non-trivial = distinct case labels / mutated DERs.",
 	Assumptions: []string{"RSA/ECDSA issuer certificates are created with Go's crypto/x509 and parsed by the package", "signature values are randomised inside the library (not observed)"},
-	Bounds:      func(tier string) string { return "complete for the stated alphabets in both tiers" },
+	Bounds: func(tier string) string {
+		if tier == "thorough" {
+			return "products complete for the stated alphabets; byte sweep over the base certificate and every 4th template variation (15 certificates) per signer, plus one request and one revocation list per signer"
+		}
+		return "products complete for the stated alphabets; byte sweep over one certificate, one request and one revocation list per signer"
+	},
 	Units: func(tier string) []harness.Unit {
 		var u []harness.Unit
 		for i := 0; i < 4; i++ {
